@@ -411,3 +411,25 @@ def campaign(ctx):
                 ctx.sample(f"{case['comb']}-{r.get('top')}", case)
         ctx.fail_all(r["fails"], case)
     ctx.run_given(case_strategy(ctx.thorough), body, max_examples=ctx.n(1000, 12000))
+    # a union that only accepts in its last, lenient stage (after the stricter stages left their errors behind), followed by another
+    # argument of a conjunction / nested in another combinator: enumerated completely (seed independent)
+    I, Li, S = {"k": "leaf", "o": "int"}, {"k": "list", "a": {"k": "leaf", "o": "int"}}, {"k": "leaf", "o": "str"}
+    unions = [{"k": "union", "a": [I, Li], "m": "annotate"}, {"k": "opt", "a": I, "m": "annotate"}, {"k": "union", "a": [Li, I], "m": "annotate"}]
+    seconds = [{"k": "not", "a": {"k": "con", "o": "int", "c": {"const": 0}, "m": "class"}, "m": "annotate"}, {"k": "con", "o": "int", "c": {"gt": 0}, "m": "class"},
+               {"k": "union", "a": [I, S], "m": "annotate"}, {"k": "xor", "a": [I, {"k": "leaf", "o": "date"}], "m": "annotate"}]
+    lossy = [{"t": "float", "v": "3.7"}, "3.7", {"t": "float", "v": "0.2"}, {"t": "list", "v": [{"t": "float", "v": "1.5"}]}, {"t": "decimal", "v": "2.5"}, "4", 4, True]
+    idx = 0
+    for u in unions:
+        for sec in seconds:
+            for comb, args in (("and", [u, sec]), ("and", [sec, u]), ("union", [u, sec]), ("xor", [u, S])):
+                for v in lossy:
+                    for mode in ("func", "op"):
+                        idx += 1
+                        if idx % ctx.nshards != ctx.shard:
+                            continue
+                        ctx.ev()
+                        try:
+                            body({"comb": comb, "args": list(args), "mode": mode, "value": v, "options": {}})
+                        except HarnessError:
+                            ctx.label("grid_case_refused")
+    ctx.extra["staged_union_grid_exhaustive"] = True
